@@ -47,6 +47,14 @@ def partition (p : Problem) (s : Solution) : List String := Id.run do
       let nr := count (fun (x : Nat × Activity) => x.2.type == "reload") (Tour.acts t)
       if nb > sh.breaks.length then errs := s!"tour {t.vehicleId}: {nb} breaks, shift defines {sh.breaks.length}" :: errs
       if nr > sh.reloads.length then errs := s!"tour {t.vehicleId}: {nr} reloads, shift defines {sh.reloads.length}" :: errs
+      -- ... DISTINCT ones: of the reloads defined with one tag at one location no more are used than are defined
+      let used := (Tour.acts t).filter (fun x => x.2.type == "reload") |>.map (fun x =>
+        (x.2.tag, x.2.loc.orElse (fun _ => (t.stops[x.1]?).bind (·.loc))))
+      for u in used.eraseDups do
+        let nUsed := count (fun y => y == u) used
+        let nDef := count (fun (r : Place) => r.tag == u.1 && some r.loc == u.2) sh.reloads
+        if u.2.isSome && nUsed > nDef then
+          errs := s!"tour {t.vehicleId}: the reload {u.1} at {u.2} is used {nUsed} times, the shift defines {nDef}" :: errs
       if count (fun (x : Nat × Activity) => x.2.type == "departure") (Tour.acts t) != 1 then
         errs := s!"tour {t.vehicleId}: not exactly one departure" :: errs
       let na := count (fun (x : Nat × Activity) => x.2.type == "arrival") (Tour.acts t)
